@@ -16,37 +16,6 @@ open ChibiVerif.Spec.Ctl
 
 /-! ### what the parsed tree says about labels and jumps -/
 
-/-- (source name, unique label) of every labelled statement, in source order -/
-def labelPairs : Stmt → List (Nat × Nat)
-  | .seq a b => labelPairs a ++ labelPairs b
-  | .block s => labelPairs s
-  | .ifte _ t e => labelPairs t ++ labelPairs e
-  | .for_ _ _ _ _ _ body => labelPairs body
-  | .doWhile _ _ body _ => labelPairs body
-  | .switch_ _ _ _ _ _ _ body => labelPairs body
-  | .case_ _ _ _ s => labelPairs s
-  | .default_ _ s => labelPairs s
-  | .label l u s => (l, u) :: labelPairs s
-  | _ => []
-
-/-- every `goto l` / `goto *&&l` is resolved, to a unique label `t` with `R l t`; `V` holds if there is a
-    computed goto (it will be: code addresses fit a 64-bit register) -/
-def GotoR (R : Nat → Nat → Prop) (V : Prop) : Stmt → Prop
-  | .seq a b => GotoR R V a ∧ GotoR R V b
-  | .block s => GotoR R V s
-  | .ifte _ t e => GotoR R V t ∧ GotoR R V e
-  | .for_ _ _ _ _ _ body => GotoR R V body
-  | .doWhile _ _ body _ => GotoR R V body
-  | .switch_ _ _ _ _ _ _ body => GotoR R V body
-  | .case_ _ _ _ s => GotoR R V s
-  | .default_ _ s => GotoR R V s
-  | .label _ _ s => GotoR R V s
-  | .goto_ (.user l) t => R l t
-  | .gotoVal l t => R l t ∧ V
-  | .gotoN _ => False
-  | .gotoValN _ => False
-  | _ => True
-
 /-- unique labels of the label nodes the target designates, in the order `Spec.Ctl.find` visits them -/
 def hitLabels (t : Target) : Stmt → List Nat
   | .seq a b => hitLabels t a ++ hitLabels t b
